@@ -106,7 +106,7 @@ def check_program(ctx, w, p, how):
     bad = w.ref.check_refinements(p, w.start_type())
     ctx.stat("programs_checked")
     for cause, path in bad[:3]:
-        ctx.violate(f"C02/refinement/{w.rep_kind}/{cause}",
+        ctx.violate(f"C02/refinement/{w.rep_kind}/{'annotated-symbol-built-without-its-refinement' if w.rep_kind == 'stack' else cause}",
                     f"{how} on {w.rep_kind} produced a value violating its refinement: {cause} at {path}; program={render_value(p, w.ref)}")
     if not bad:
         check_validators(ctx, w, p, w.start_type(), w.built.start(), {}, "$")
